@@ -374,6 +374,45 @@ def suites(tier):
     return [suite_blocks(tier), suite_ctx(tier), suite_srv(tier)]
 
 
+# ----------------------------------------------------------------------------- blocks are values of their own (python side)
+
+def independence():
+    """"a write changes exactly those cells and leaves all others unchanged" includes the cells of OTHER blocks: blocks
+    built from one initial list object, the caller's list edited after construction, the default tables of one and of
+    two slave contexts (sparse blocks keep the caller's dict by design: declared aliasing, not checked here)"""
+    from pymodbus.datastore import ModbusSequentialDataBlock, ModbusSlaveContext
+    fails, keys = [], []
+
+    def check(name, ok, detail):
+        keys.append(name)
+        if not ok:
+            fails.append({"scenario": name, "detail": detail})
+    init = [7] * 12
+    a, b = ModbusSequentialDataBlock(0, init), ModbusSequentialDataBlock(100, init)
+    a.setValues(3, [1, 2, 3])
+    check("two-blocks-one-list", b.getValues(103, 3) == [7, 7, 7] and init == [7] * 12,
+          {"other_block": b.getValues(100, 12), "callers_list": list(init)})
+    init2 = [5] * 4
+    c = ModbusSequentialDataBlock(10, init2)
+    init2.append(9)
+    init2[0] = 6
+    check("caller-edits-list-afterwards", c.getValues(10, 4) == [5] * 4 and not c.validate(10, 5) and c.validate(10, 4),
+          {"cells": list(c.values), "validate_past_end": c.validate(10, 5)})
+    for zm in (True, False):
+        s1, s2 = ModbusSlaveContext(zero_mode=zm), ModbusSlaveContext(zero_mode=zm)
+        s1.setValues(5, 20, [1])            # coil 20 of context 1
+        s1.setValues(6, 30, [0xBEEF])       # holding register 30 of context 1
+        seen = {"s1.di": s1.getValues(2, 20, 1), "s1.ir": s1.getValues(4, 30, 1), "s1.hr@20": s1.getValues(3, 20, 1),
+                "s1.co@30": s1.getValues(1, 30, 1), "s2.co": s2.getValues(1, 20, 1), "s2.hr": s2.getValues(3, 30, 1)}
+        check("default-tables-zero_mode=%s" % zm, all(v == [0] for v in seen.values()) and s1.getValues(1, 20, 1) == [1]
+              and s1.getValues(3, 30, 1) == [0xBEEF], seen)
+    return {"evaluations": len(keys), "failures": fails, "broken": [], "samples": fails[:2], "keys": keys}
+
+
+def extra_checks(tier):
+    return {"independence": independence()}
+
+
 # ----------------------------------------------------------------------------- findings / replay
 
 def classify(suite, desc):
@@ -417,6 +456,8 @@ def replay_case(suite, desc):
         r = coqrun.eval_cases("C18_replay", IMPORTS, "chk_block code", [c.term])
         print("now:", c.desc["impl_outputs"], r)
         return bool(r["propfail"] or r["errors"])
+    if suite == "independence":
+        return bool(independence()["failures"])
     print("replay of suite %s: re-run ./check C18 with VERIF_SEED from the replay file" % suite)
     return True
 
